@@ -86,7 +86,7 @@ func c11Round(rng *Rng, G, perG int, inject bool) (bad []c11Mismatch, calls int,
 				st.text = c12Calm(rng, texts)
 			}
 			if c12IsCatastrophic(st.text) && specs[st.re].timeout != 0 {
-				if nTimeoutJobs >= 2*G || st.op >= 8 {
+				if nTimeoutJobs >= G/4+2 || st.op >= 8 {
 					st.text = c12Calm(rng, texts)
 				} else {
 					nTimeoutJobs++
@@ -108,11 +108,24 @@ func c11Round(rng *Rng, G, perG int, inject bool) (bad []c11Mismatch, calls int,
 			// expectation for a non-catastrophic input is computed without the deadline (a loaded machine can make
 			// a wall-clock timeout fire in the sequential run as well); a late timeout of the concurrent call is
 			// tolerated and counted, any other difference is a violation.
+			// A text that merely CONTAINS a catastrophic fragment need not be slow for the pattern (an anchored
+			// pattern never reaches it), so whether the call is "certainly slow" is measured, not guessed: the
+			// reference runs with a deadline far above the real one; if even that expires the call is expected to
+			// time out, otherwise its result is the expectation.
 			ref := specs[st.re].compile()
 			if specs[st.re].timeout != 0 && !c12IsCatastrophic(st.text) {
 				ref.MatchTimeout = regexp2.DefaultMatchTimeout
 			}
 			want := c12Exec(ref, st, repls, ngroups[st.re]).canon
+			if specs[st.re].timeout != 0 && strings.HasPrefix(want, "ERR match timeout") {
+				// timed out under the real deadline: certainly slow only if a 12x deadline expires as well
+				ref = specs[st.re].compile()
+				ref.MatchTimeout = 100 * time.Millisecond
+				want = c12Exec(ref, st, repls, ngroups[st.re]).canon
+				if strings.HasPrefix(want, "ERR match timeout") {
+					want = "ERR match timeout"
+				}
+			}
 			jobs[g] = append(jobs[g], c11Job{st: st, want: want, shared: rng.Chance(70)})
 		}
 	}
@@ -149,6 +162,9 @@ func c11Round(rng *Rng, G, perG int, inject bool) (bad []c11Mismatch, calls int,
 					re = shared[j.st.re]
 				}
 				got := c12Exec(re, j.st, repls, ngroups[j.st.re]).canon
+				if j.want == "ERR match timeout" && strings.HasPrefix(got, "ERR match timeout") {
+					got = j.want
+				}
 				if got != j.want {
 					// a call on the timed Regexp may legitimately run out of wall-clock time when it is descheduled
 					if specs[j.st.re].timeout != 0 && strings.HasPrefix(got, "ERR match timeout") {
